@@ -217,7 +217,8 @@ func jsonStrUniverse(u int) []string {
 	// every class of character that needs care appears within the first four strings: quote and a
 	// backslash that forms a valid escape; newline and a control character with no short escape;
 	// HTML-sensitive characters and DEL; then non-ASCII / non-BMP, the empty string, a trailing backslash
-	all := []string{"a", "b\"q\\t", "c\n\x1fd", "<e&>\x7f", "\u00e9\U0001F600f", "", "g\\", "h\th"}
+	// (U+2028 / U+2029 are valid in JSON strings but encoding/json always escapes them: after seeded change C11-16)
+	all := []string{"a\u2028", "b\"q\\t", "c\n\x1fd", "<e&>\x7f\u2029", "\u00e9\U0001F600f", "", "g\\", "h\th"}
 	if u > len(all) {
 		u = len(all)
 	}
